@@ -186,6 +186,35 @@ pub fn check_reads<K: TestKey>(
                 ),
             )),
         }
+        // two live readers on one blob (the same key, or another key holding the same content),
+        // consumed alternately: each streams all L bytes, whatever the other one does
+        if let Some(w) = want
+            && !w.is_empty()
+        {
+            checks += 1;
+            let twin = probes.iter().find(|k2| *k2 != k && model.map.get(*k2) == Some(w)).unwrap_or(k);
+            if let (Ok(Some(mut r1)), Ok(Some(mut r2))) = (cas.get_reader(k), cas.get_reader(twin)) {
+                let cut = (w.len() / 2).max(1).min(w.len());
+                let mut a = vec![0u8; cut];
+                let mut b = Vec::new();
+                let ok = r1.read_exact(&mut a).is_ok() && r2.read_to_end(&mut b).is_ok() && r1.read_to_end(&mut a).is_ok();
+                if !ok || a != *w || b != *w {
+                    out.push(Finding::new(
+                        &["C17", "C01"],
+                        "two readers on one blob, read alternately, did not both stream the whole content",
+                        "get_reader",
+                        format!(
+                            "keys {k:?} / {twin:?} (len {}): first reader (read {} bytes, paused, resumed) got {} bytes, second got {} bytes{}",
+                            w.len(),
+                            cut,
+                            a.len(),
+                            b.len(),
+                            if ok { "" } else { " (a read failed)" }
+                        ),
+                    ));
+                }
+            }
+        }
         // get_range: boundary + random
         if let Some(w) = want {
             let l = w.len() as u64;
